@@ -46,7 +46,12 @@ func verifC03Reconstruct() {
 	innerName := vBytes(3)
 	proto := vBytes(2)
 	hasSNI, hasALPN := vBool(), vBool() // the inner hello may lack a server name / ALPN of its own
-	base := []vExt{vECHInner(), vVersions(0x0304), {0x002d, vBytes(1)}}
+	// the inner hello's own opaque extension has an arbitrary type (seed C03j dropped inner
+	// extensions of type 21) other than the types this harness gives a structural role
+	own := vUint16()
+	vAssume(own != 0 && own != 16 && own != 43 && own != 0xfe0d && own != 0xfd00)
+	vAssume(own != 51 && own != 10 && own != 13 && own != 0x0a0a && own != 45)
+	base := []vExt{vECHInner(), vVersions(0x0304), {own, vBytes(1)}}
 	if hasALPN {
 		base = append([]vExt{vALPN([][]byte{proto})}, base...)
 	}
